@@ -80,8 +80,11 @@ class Neutral:
     """Re-establish (and optionally assert) the runtime's neutral global state between programs."""
 
     def __init__(self):
+        Neutral.current = self
         self.rt = _attached
         self.dirty = 0
+        self.expect = None       # (bitlength, resolution) this harness (or the program, through set_bitlength) set last
+        self.drift = []          # [(expected, found)]: the library changed a global width on its own and did not put it back
 
     def __call__(self, bitlength=16, resolution=8, modulus=None, check=False):
         rt = self.rt
@@ -92,13 +95,30 @@ class Neutral:
         rt.guard = None
         rt._ignore_errors = False
         rt.LinComb.ONE = rt.LinComb.ONE_SAFE
-        rt.bitlength = bitlength
         import pysnark.fixedpoint as fx
+        self.settings_drift()
+        rt.bitlength = bitlength
         fx.resolution = resolution
+        self.expect = (bitlength, resolution)
         if modulus is not None:
             recorder.set_modulus(modulus)
         recorder.reset()
         return was
+
+
+def _settings_drift(self):
+    """the global bit length / resolution must be what was set last, whatever the operations in between did (also the refused ones)"""
+    import pysnark.fixedpoint as fx
+    now = (self.rt.bitlength, fx.resolution)
+    if self.expect is not None and now != self.expect:
+        self.drift.append((self.expect, now))
+        self.expect = now
+        return True
+    return False
+
+
+Neutral.settings_drift = _settings_drift
+Neutral.current = None
 
 
 def pyflags():
